@@ -2,4 +2,4 @@ From Coq Require Import Extraction ExtrOcamlBasic.
 From Shisui Require Import Base.Bytes Gen.K_table Model.Lookup.
 Extraction Language OCaml.
 Extraction "c10_model.ml" xkey push push_all findnode_by_id init start_queries deliver_peer deliver_table shutdown run
-  cinit cwork nodes_of content_result bucket_size alphaZ track_success.
+  cinit cwork nodes_of content_result bucket_size alphaZ track_success lookup_worker_reply lookup_distances logdist.
